@@ -211,8 +211,8 @@ def check(pid, tier, seed=None, keep=False):
     if reasons:
         for r in reasons:
             print(f"INCONCLUSIVE property={pid} reason={r}")
-        for d in dead:
-            print(d["log_tail"])
+        for d in dead[:1]:
+            print(d["log_tail"][-1500:])
         return 2
     print(f"HELD property={pid} on everything observed")
     return 0
